@@ -24,3 +24,39 @@ Theorem T02_2_remove_redundant_else_preserves :
   forall p, equiv p (remove_redundant_else_model p).
 Proof. exact remove_redundant_else_preserves. Qed.
 Print Assumptions T02_2_remove_redundant_else_preserves.
+
+(* T02.3  fixes.fix_if_return: `if c: return True / return False` -> `return c` returns the VALUE of c, not
+   its truthiness (finding F02-8): refuted for an opaque condition returning a non-bool; sound when every
+   rewritten condition is syntactically boolean (a literal or `not ...`); the mirrored form
+   (-> `return not c`) is always sound and is covered by the same partial theorem. *)
+Theorem T02_3_fix_if_return_refuted :
+  exists p, ~ obs_equiv p (fix_if_return_model p).
+Proof. exact fix_if_return_refuted. Qed.
+Print Assumptions T02_3_fix_if_return_refuted.
+
+Theorem T02_3_fix_if_return_partial :
+  forall p, fir_safe (fuel_of p) p = true -> equiv p (fix_if_return_model p).
+Proof. exact fix_if_return_partial. Qed.
+Print Assumptions T02_3_fix_if_return_partial.
+
+Example T02_3_partial_nontrivial :
+  let p := [SEv 1 []; SIf (TNot (Unknown 1 [0])) [SReturn (RVal (VBool true))] []; SReturn (RVal (VBool false))] in
+  fir_safe (fuel_of p) p = true /\ fix_if_return_model p <> p.
+Proof. exact fix_if_return_partial_nontrivial. Qed.
+
+(* T02.4  fixes.fix_if_assign (after repair 066a7f0): same value-vs-truthiness defect (finding F02-9). *)
+Theorem T02_4_fix_if_assign_refuted :
+  exists p, ~ obs_equiv p (fix_if_assign_model p).
+Proof. exact fix_if_assign_refuted. Qed.
+Print Assumptions T02_4_fix_if_assign_refuted.
+
+Theorem T02_4_fix_if_assign_partial :
+  forall p, fia_safe (fuel_of p) p = true -> equiv p (fix_if_assign_model p).
+Proof. exact fix_if_assign_partial. Qed.
+Print Assumptions T02_4_fix_if_assign_partial.
+
+Example T02_4_partial_nontrivial :
+  let p := [SIf (TNot (Unknown 1 [])) [SAssign 0 (RVal (VBool true))] [SAssign 0 (RVal (VBool false))];
+            SIf (Unknown 2 []) [SAssign 1 (RVal (VBool false))] [SAssign 1 (RVal (VBool true))]] in
+  fia_safe (fuel_of p) p = true /\ fix_if_assign_model p <> p.
+Proof. exact fix_if_assign_partial_nontrivial. Qed.
